@@ -23,7 +23,7 @@ def replay_committed(prop, exe, extra=()):
     """Committed replays are regression inputs: each must pass on a tree where the property holds."""
     viol = []
     n = 0
-    for path in sorted(glob.glob(os.path.join(runner.REPLAYS, prop + "-*.case"))):
+    for path in sorted(glob.glob(os.path.join(runner.COMMITTED_REPLAYS, prop + "-*.case"))):
         n += 1
         oc = runner.run_replay(exe, path, extra)
         if oc[0] != "pass":
